@@ -285,6 +285,60 @@ func GenExtreme(r *vproto.Rng, phase int, par [2]int, kind string, size int) *Hi
 	return h
 }
 
+// GenMixed: a GenHist history whose pool holds pointer objects, *geom.Bounds and geom.Point values
+// side by side (kind "mix": object i has kind i%3; the Point objects get the degenerate box at the
+// lower-left corner of their pool box, kept pairwise distinct because equal Points are one object).
+func GenMixed(r *vproto.Rng, phase int, par [2]int, size int) *Hist {
+	h := GenHist(r, phase, par, "ptr", size, 5)
+	h.Kind = "mix"
+	seen := map[[2]float64]bool{}
+	for i := range h.Pool {
+		if i%3 != 2 {
+			continue
+		}
+		x, y := h.Pool[i].MinX, h.Pool[i].MinY
+		for k := 1; seen[[2]float64{x, y}]; k++ {
+			x = h.Pool[i].MinX + float64(k*(i+1))*101*h.Scale
+		}
+		seen[[2]float64{x, y}] = true
+		h.Pool[i] = Box{x, y, x, y}
+	}
+	h.Class = "mix-" + h.Class
+	return h
+}
+
+// GenLarge: `n` silent inserts (no step reported), then reported operations on the big tree: inserts,
+// deletes of stored objects (root-to-leaf condense on a deep tree), deletes of absent objects, a
+// duplicate; whole-plane and window queries return more than 1024 / 2048 objects.
+func GenLarge(r *vproto.Rng, par [2]int, kind string, n int) *Hist {
+	h := &Hist{Min: par[0], Max: par[1], Kind: kind, Scale: 1}
+	seen := map[[2]float64]bool{}
+	for len(h.Pool) < n+8 {
+		x, y := float64(r.Range(0, 4000)), float64(r.Range(0, 4000))
+		if seen[[2]float64{x, y}] {
+			continue
+		}
+		seen[[2]float64{x, y}] = true
+		bx := Box{x, y, x, y}
+		if kind != "pt" {
+			bx = Box{x, y, x + float64(r.Range(0, 30)), y + float64(r.Range(0, 30))}
+		}
+		h.Pool = append(h.Pool, bx)
+	}
+	for i := 0; i < n; i++ {
+		h.Ops = append(h.Ops, Op{ID: i, Silent: true})
+	}
+	// a block of silent deletes in the middle (condense / re-insert on the big tree)
+	for i := 0; i < n/8; i++ {
+		h.Ops = append(h.Ops, Op{Del: true, ID: r.Intn(n), Silent: true})
+	}
+	h.Ops = append(h.Ops, Op{ID: n}, Op{ID: n + 1}, Op{Del: true, ID: n + 5}, Op{Del: true, ID: n}, Op{ID: 3},
+		Op{Del: true, ID: r.Intn(n)}, Op{Del: true, ID: n + 1}, Op{ID: n + 2})
+	h.Queries = []Box{{-1e6, -1e6, 1e6, 1e6}, {0, 0, 2000, 4100}, {1000, 1000, 1100, 1100}, {4031, 4031, 5000, 5000}, {-5, -5, -1, -1}}
+	h.Class = fmt.Sprintf("large%d-%s-m%dM%d", n, kind, par[0], par[1])
+	return h
+}
+
 // CorpusExtreme: fixed overflow histories (C11 only; not part of Corpus(), which C12 shares).
 func CorpusExtreme() []*Hist {
 	var hs []*Hist
@@ -618,7 +672,7 @@ func Gen(seed uint64, tier string) []*Hist {
 	rx := vproto.NewRng(seed*7919 + 11)
 	nx := 20
 	if tier == "thorough" {
-		nx = 300
+		nx = 200
 	}
 	for i := 0; i < nx; i++ {
 		par := Params[(i+i/len(Params))%len(Params)]
@@ -627,10 +681,25 @@ func Gen(seed uint64, tier string) []*Hist {
 		}
 		hs = append(hs, GenExtreme(rx, i%6, par, Kinds[i%len(Kinds)], 8+rx.Intn(40)))
 	}
+	// all three object kinds in one tree
+	nm := 9
+	if tier == "thorough" {
+		nm = 90
+	}
+	for i := 0; i < nm; i++ {
+		hs = append(hs, GenMixed(rx, i%6, Params[(i*5+i/7)%len(Params)], 8+rx.Intn(40)))
+	}
+	// thousands of objects (silent inserts, then reported operations)
+	hs = append(hs, GenLarge(rx, [2]int{2, 4}, "ptr", 1100), GenLarge(rx, [2]int{3, 7}, "pt", 2600),
+		GenLarge(rx, [2]int{64, 129}, "bnd", 7000)) // the last: a root with more than 64 children
+	if tier == "thorough" {
+		hs = append(hs, GenLarge(rx, [2]int{2, 3}, "bnd", 2100), GenLarge(rx, [2]int{25, 50}, "ptr", 2600),
+			GenLarge(rx, [2]int{4, 8}, "pt", 4200), GenLarge(rx, [2]int{64, 129}, "ptr", 9000))
+	}
 	// wide nodes
 	nw := 6
 	if tier == "thorough" {
-		nw = 60
+		nw = 30
 	}
 	for i := 0; i < nw; i++ {
 		h := GenHist(rx, []int{0, 3, 2, 1, 5}[i%5], WideParams[i%len(WideParams)], Kinds[i%len(Kinds)], 30+rx.Intn(25), 5)
